@@ -14,6 +14,7 @@ EXPLANATION = (
     " Shared: C12.T8 (the charged weight is the weight of the whole decoded program)."
     " R7 once per transaction: the fee counts each covenant of tx.covenants once, so check_tx_validity may execute it once: the set of validated covenant hashes lives across the input loop, a hit skips validation, a success is recorded."
     " R5 also requires the guarding length test to be made on the full-width length (`.../reduced`: a test on `len as u16` or on a saturated length lets longer strings through at the price of the bound)."
+    " R4 also asks that the nesting comparison is made for zero-iteration loops and that the body length is tested before a loop state is pushed (today's answers are the recorded findings D26/D27). R8 weight accumulation: opcodes_weight loops while instructions remain, adds every part's weight, continues with the remainder; no wrapping arithmetic in the weighing functions. R9 paid before run: every batch member passes the fee gate before check_tx_validity / DoscMint verification run (D22, repaired)."
 )
 NOT_DECIDED = ["the inequality executed steps ≤ weight as arithmetic over all programs", "memory high-water marks of CatVec operations"]
 ASSUMPTIONS = ["catvec: append/slice are O(log n) structure sharing; conversion to Vec is O(n)"]
